@@ -276,7 +276,11 @@ def serialize(ast, var_index):
     orders = []
 
     def abs_tuple(node):
-        r = claripy.backends.vsa.convert(node)
+        # the operand as it was evaluated INSIDE the parent (the caller has converted the whole AST before): converting the operand
+        # on its own would excavate it again, which can rewrite it (v - If(c, v, v) becomes If(c, 0, 0)) and give another value
+        r = claripy.backends.vsa._object_cache.get(node.hash(), None)
+        if r is None:
+            r = claripy.backends.vsa.convert(node)
         t = vsa.tup(r)
         if not isinstance(t, (tuple, str)):
             raise Unmodelled("non-interval operand of udiv")
